@@ -215,11 +215,25 @@ def libubsan():
     return os.path.realpath(out)
 
 
-def pool_map(fn, items, jobs):
-    """Ordered parallel map; results do not depend on `jobs`."""
-    items = list(items)
-    if jobs <= 1 or len(items) <= 1:
-        return [fn(x) for x in items]
-    chunk = max(1, min(32, len(items) // (jobs * 4) or 1))
-    with ProcessPoolExecutor(max_workers=jobs) as ex:
-        return list(ex.map(fn, items, chunksize=chunk))
+class Pool:
+    """Ordered parallel map over forked workers; results do not depend on the worker count."""
+
+    def __init__(self, jobs):
+        self.jobs = jobs
+        self.pool = None
+        if jobs > 1:
+            import multiprocessing
+            self.pool = multiprocessing.get_context("fork").Pool(jobs)
+
+    def map(self, fn, items):
+        items = list(items)
+        if self.pool is None or len(items) <= 1:
+            return [fn(x) for x in items]
+        chunk = max(1, min(64, len(items) // (self.jobs * 4) or 1))
+        return self.pool.map(fn, items, chunksize=chunk)
+
+    def close(self):
+        if self.pool is not None:
+            self.pool.close()
+            self.pool.join()
+            self.pool = None
